@@ -41,4 +41,5 @@ for seed, out in res:
     caught_own = own in out and out[own].get("violations", 0) > 0
     print(f"{tag:8s} own-check={'CAUGHT' if caught_own else 'missed'}  fired: {fired}")
     table[tag] = {"caught_by_own_check": caught_own, "fired": out}
-json.dump(table, open(os.path.join(VERIF, "seeded", "MATRIX.json") if os.path.isdir(os.path.join(VERIF, "seeded")) else "/dev/null", "w"), indent=1)
+out_name = "MATRIX.json" if os.path.abspath(root) == os.path.join(VERIF, "seeded") else "MATRIX.json"
+json.dump(table, open(os.path.join(root, out_name), "w"), indent=1)
